@@ -387,4 +387,168 @@ example : blockDiagIndex [2, 0, 1] [1, 0, 2] = .ok ([0, 1, 2, 2], [0, 0, 1, 2]) 
 example : bdiSpec 0 0 [2, 3] [1, 2] = [(0, 0), (1, 0), (2, 1), (3, 1), (4, 1), (2, 2), (3, 2), (4, 2)] := by
   decide +kernel
 
+/-! ## the csc side
+
+`Csc.toDense` is scipy's column-wise semantics written down directly.  `csc_eq_transposed_reading`
+shows that it is the transpose of the row-wise semantics of the csr matrix with the same arrays, so
+every csr theorem above transfers: the csc result is the transpose of the dense row operation
+applied to the transpose (`transposeD M c` = transpose of a matrix with `c` columns).  For stacking
+the transposes are eliminated (`hstack`, block diagonal). -/
+
+/-- one generic lemma: column-wise reading = transpose of the row-wise reading of the same arrays -/
+theorem csc_eq_transposed_reading (C : Csc) :
+    C.toDense = transposeD C.read.toDense C.nrows ∧ C.read.toDense = transposeD C.toDense C.ncols :=
+  ⟨csc_toDense_eq_transpose C, read_toDense C⟩
+
+/-- transposing twice is the identity on r × c matrices (zero sizes included) -/
+theorem transpose_transpose (M : List (List Rat)) (r c : Nat) (hr : M.length = r)
+    (hc : ∀ row ∈ M, row.length = c) : transposeD (transposeD M c) r = M :=
+  transposeD_involutive M r c hr hc
+
+/-- `zero_columns(A, cols)`: `A[:, cols] = 0` (as the transposed row statement); structure kept -/
+theorem zero_columns_eq_dense (C : Csc) (hC : C.WF) (cols : List Nat) (hi : ∀ j ∈ cols, j < C.ncols) :
+    (zeroColumns C cols).toDense = transposeD (zeroRowsDense (transposeD C.toDense C.ncols) cols) C.nrows ∧
+    (zeroColumns C cols).indptr = C.indptr ∧ (zeroColumns C cols).indices = C.indices ∧ (zeroColumns C cols).WF := by
+  obtain ⟨h1, _, _, h4⟩ := zero_rows_eq_dense C.read hC cols hi
+  refine ⟨?_, rfl, rfl, h4⟩
+  rw [csc_toDense_eq_transpose, ← read_toDense]
+  show transposeD (zeroLines C.read cols).toDense C.nrows = _
+  rw [h1]
+
+/-- `slice_sparse_matrix(A, ind)` for csc `A`: `A[:, ind]` -/
+theorem slice_columns_eq_dense_index (C : Csc) (hC : C.WF) (ind : List Nat) (hi : ∀ j ∈ ind, j < C.ncols) :
+    (sliceCols C ind).toDense = transposeD (sliceDense (transposeD C.toDense C.ncols) C.nrows ind) C.nrows ∧
+    (sliceCols C ind).WF ∧ (sliceCols C ind).nrows = C.nrows ∧ (sliceCols C ind).ncols = ind.length := by
+  obtain ⟨h1, h2, _⟩ := slice_eq_dense_index C.read hC ind hi
+  refine ⟨?_, h2, rfl, rfl⟩
+  rw [csc_toDense_eq_transpose, ← read_toDense]
+  show transposeD (sliceLines C.read ind).toDense C.nrows = _
+  rw [h1]
+  rfl
+
+/-- `merge_matrices(A, B, lines, "csc")`: `A[:, lines] = B` -/
+theorem merge_columns_eq_replacement (A B : Csc) (lines : List Nat) (hA : A.WF) (hB : B.WF)
+    (hr : A.nrows = B.nrows) (hl : lines.length = B.ncols) (hnd : lines.Nodup) (hlt : ∀ l ∈ lines, l < A.ncols) :
+    (mergeCols A B lines).toDense
+      = transposeD (replaceRows (transposeD A.toDense A.ncols) lines (transposeD B.toDense B.ncols)) A.nrows ∧
+    (mergeCols A B lines).WF := by
+  obtain ⟨_, h2, h3⟩ := merge_eq_row_replacement A.read B.read lines hA hB hr hl hnd hlt
+  refine ⟨?_, h3⟩
+  rw [csc_toDense_eq_transpose, ← read_toDense, ← read_toDense]
+  have hn : (mergeLines A.read B.read lines).ncols = A.nrows := by
+    unfold mergeLines
+    split <;> rfl
+  show transposeD (mergeLines A.read B.read lines).toDense (mergeLines A.read B.read lines).ncols = _
+  rw [h2, hn]
+
+/-- `stack_mat(A, B)` for csc is `hstack`: every row of `A` followed by the same row of `B` -/
+theorem stack_mat_csc_eq_hstack (A B : Csc) (hA : A.WF) (hB : B.WF) (hr : A.nrows = B.nrows) :
+    (stackMatCsc A B).toDense = List.zipWith (· ++ ·) A.toDense B.toDense ∧ (stackMatCsc A B).WF := by
+  obtain ⟨h1, h2⟩ := stack_mat_eq_vstack A.read B.read hA hB hr
+  refine ⟨?_, h2⟩
+  rw [csc_toDense_eq_transpose]
+  have hn : (stackMatCsc A B).nrows = A.nrows := by
+    show (stackMat A.read B.read).ncols = A.nrows
+    unfold stackMat
+    split <;> rfl
+  rw [hn]
+  show transposeD (stackMat A.read B.read).toDense A.nrows = _
+  rw [h1, transposeD_append, csc_toDense_eq_transpose A, csc_toDense_eq_transpose B, hr]
+
+/-- `stack_diag(A, B)` for csc: the same dense block diagonal `[[A, 0], [0, B]]` -/
+theorem stack_diag_csc_eq_block_diag (A B : Csc) (hA : A.WF) (hB : B.WF) :
+    (stackDiagCsc A B).toDense = diagDense A.toDense A.ncols B.toDense B.ncols ∧ (stackDiagCsc A B).WF := by
+  obtain ⟨h1, h2⟩ := stack_diag_eq_block_diag A.read B.read hA hB
+  refine ⟨?_, h2⟩
+  rw [csc_toDense_eq_transpose]
+  show transposeD (stackDiag A.read B.read).toDense (A.nrows + B.nrows) = _
+  rw [h1]
+  show transposeD (diagDense A.read.toDense A.nrows B.read.toDense B.nrows) (A.nrows + B.nrows) = _
+  have ht := transposeD_diagDense A.read.toDense B.read.toDense A.nrows B.nrows (length_row_toDense A.read)
+  rw [ht, length_toDense, length_toDense, ← csc_toDense_eq_transpose, ← csc_toDense_eq_transpose]
+  rfl
+
+/-- `csc_matrix_from_sparse_blocks(blocks)`: the transposed statement of the csr theorem -/
+theorem csc_from_sparse_blocks_eq_block_diag (bs : List Csc) (hbs : ∀ b ∈ bs, b.WF) (hne : bs ≠ []) :
+    ∃ C, cscFromSparseBlocks bs = .ok C ∧
+      C.toDense = transposeD
+        (blockDiagDense (bs.map (fun b => (transposeD b.toDense b.ncols, b.nrows)))).1 C.nrows ∧ C.WF := by
+  obtain ⟨R, h1, h2, _, h4⟩ := from_sparse_blocks_eq_block_diag (bs.map Csc.read)
+    (by intro b hb; obtain ⟨c, hc, rfl⟩ := List.mem_map.mp hb; exact hbs c hc) (by simpa using hne)
+  refine ⟨Csc.ofRead R, by simp [cscFromSparseBlocks, h1, Except.map], ?_, h4⟩
+  rw [csc_toDense_eq_transpose]
+  show transposeD R.toDense R.ncols = _
+  rw [h2, List.map_map]
+  congr 3
+  apply List.map_congr_left
+  intro b _
+  simp only [Function.comp, read_toDense]
+  rfl
+
+/-- `csc_matrix_from_dense_blocks(data, block_size, num_blocks)`: each block is filled column-wise,
+    i.e. the transposed statement of the csr theorem -/
+theorem csc_from_dense_blocks_eq_block_diag (data : List Rat) (bs nb : Nat) (hbs : 1 ≤ bs)
+    (hd : data.length = bs * bs * nb) :
+    ∃ C, cscFromDenseBlocks data bs nb = .ok C ∧
+      C.toDense = transposeD
+        (blockDiagDense ((chunks (bs * bs) nb data).map (fun d => (chunks bs bs d, bs)))).1 (nb * bs) ∧ C.WF := by
+  obtain ⟨R, h1, h2, _, h4, h5⟩ := from_dense_blocks_eq_block_diag data bs nb hbs hd
+  refine ⟨Csc.ofRead R, by simp [cscFromDenseBlocks, h1, Except.map], ?_, h5⟩
+  rw [csc_toDense_eq_transpose]
+  show transposeD R.toDense R.ncols = _
+  rw [h2, h4]
+
+example : (⟨2, 3, [0, 1, 1, 3], [1, 1, 0], [5, 7, 9]⟩ : Csc).toDense = [[0, 0, 9], [5, 0, 7]] := by decide +kernel
+example : (stackMatCsc ⟨2, 1, [0, 1], [1], [5]⟩ ⟨2, 2, [0, 1, 2], [0, 1], [7, 9]⟩).toDense = [[0, 7, 0], [5, 0, 9]] := by
+  decide +kernel
+
+/-! ## boolean masks, sparse_kronecker_product, optimized_compressed_storage -/
+
+/-- boolean `ind`: `slice_sparse_matrix(A, mask)` keeps exactly the lines whose mask entry is `True`
+    (`A[mask, :]`), in order. -/
+theorem slice_mask_eq_dense_mask (A : Csr) (hA : A.WF) (mask : List Bool) (hm : mask.length = A.nrows) :
+    (sliceLines A (whereTrue mask)).toDense = maskSel A.toDense mask := by
+  have hlt : ∀ i ∈ whereTrue mask, i < A.nrows := by
+    intro i hi; rw [← hm]; exact whereTrue_spec mask i hi
+  obtain ⟨h1, _, _⟩ := slice_eq_dense_index A hA (whereTrue mask) hlt
+  rw [h1, sliceDense, whereTrue]
+  exact map_getD_trueIdx A.toDense _ mask A.toDense 0 rfl (by rw [length_toDense, hm]; exact Nat.le_refl _)
+
+/-- boolean `slice_ind` of `slice_indices`: `IndexError` unless there is one mask entry per line,
+    otherwise the array version on `np.where(mask)[0]`. -/
+theorem slice_indices_mask_eq (A : Csr) (mask : List Bool) :
+    sliceIndicesMask A mask =
+      if mask.length = A.indptr.length - 1 then .ok (sliceIndices A (whereTrue mask)) else .error "IndexError" := by
+  unfold sliceIndicesMask
+  split <;> simp_all
+
+/-- `sparse_kronecker_product(A, nd)` for every `nd` (1: unchanged; 0: empty): densely `kron(A, I_nd)`. -/
+theorem sparse_kronecker_product_dense (A : Csr) (nd : Nat) :
+    (sparseKron A nd).toDense = kronDense A.toDense nd := by
+  unfold sparseKron
+  split
+  · next h => subst h; exact (kron_one_dense _).symm
+  · exact kronI_dense A nd
+
+/-- `optimized_compressed_storage(A)`: csc exactly when there are more rows than columns, and the
+    dense matrix is unchanged (the conversion is represented by `denseToCsr`). -/
+theorem optimized_storage_spec (A : Csr) :
+    (match optimizedStorage A with
+      | .inl R => ¬ A.ncols < A.nrows ∧ R.toDense = A.toDense ∧ R.WF
+      | .inr C => A.ncols < A.nrows ∧ C.toDense = A.toDense ∧ C.WF) := by
+  unfold optimizedStorage optimizedIsCsc
+  by_cases h : A.ncols < A.nrows
+  · simp only [h, decide_true, if_true]
+    obtain ⟨t1, t2⟩ := transposeD_shape A.toDense A.ncols
+    rw [length_toDense] at t2
+    obtain ⟨d1, d2⟩ := denseToCsr_dense (transposeD A.toDense A.ncols) A.nrows t2
+    refine ⟨trivial, ?_, d2⟩
+    rw [csc_toDense_eq_transpose]
+    show transposeD (denseToCsr (transposeD A.toDense A.ncols) A.nrows).toDense A.nrows = _
+    rw [d1]
+    exact transposeD_involutive _ _ _ (length_toDense A) (length_row_toDense A)
+  · simp only [h, decide_false, Bool.false_eq_true, if_false]
+    obtain ⟨d1, d2⟩ := denseToCsr_dense A.toDense A.ncols (length_row_toDense A)
+    exact ⟨not_false, d1, d2⟩
+
 end PorepyVerif.C35
